@@ -277,6 +277,9 @@ func genC01(t *rapid.T, typ uint8) model.Packet {
 	if typ == model.DISCONNECT && api.DisconnectHasSetters() {
 		gen.DisconnectProps(t, &m, o)
 	}
+	if rapid.IntRange(0, 24).Draw(t, "steerproplen") == 0 {
+		steerPropertyLength(&m, rapid.SampledFrom(propLenTargets).Draw(t, "proplentarget"))
+	}
 	if typ == model.PUBLISH {
 		switch k := rapid.IntRange(0, 399).Draw(t, "rlclass"); {
 		case k < 32:
@@ -507,6 +510,40 @@ func drawBuildCase(t *rapid.T, m *model.Packet, typ uint8) buildCase {
 			return rapid.IntRange(0, 2).Draw(t, "decoy.use") == 0, rapid.IntRange(0, 4).Draw(t, "decoy.before")
 		})
 	}
+	if rapid.IntRange(0, 5).Draw(t, "repeats") == 0 {
+		c.Plan = api.WithRepeats(m, c.Plan, func(i int) int {
+			if rapid.IntRange(0, 3).Draw(t, "repeat.use") == 0 {
+				return rapid.IntRange(1, 2).Draw(t, "repeat.n")
+			}
+			return 0
+		})
+	}
 	c.Prelude = drawPrelude(t)
 	return c
 }
+
+// steerPropertyLength appends one user property so that the (first) property
+// section of the canonical encoding is exactly target bytes long: the places
+// where the property-length field changes size (127/128, 16 383/16 384).
+func steerPropertyLength(m *model.Packet, target int) bool {
+	if m.Type == model.PINGREQ || m.Type == model.PINGRESP {
+		return false
+	}
+	secs := ref.Tree(m, ref.Style{Form: 2}).PropSections()
+	if len(secs) == 0 {
+		return false
+	}
+	cur := 0
+	for _, k := range secs[0].Kids {
+		b, _ := (&ref.Frame{Body: []*ref.Node{k}}).Bytes()
+		cur += len(b) - 2 // minus the frame header of the helper frame
+	}
+	need := target - cur - 5 - 1 // identifier, two length prefixes, one-byte key
+	if need < 0 || need > 65535 {
+		return false
+	}
+	m.UserProps = append(m.UserProps, model.KV{K: "k", V: string(bytes.Repeat([]byte{'p'}, need))})
+	return true
+}
+
+var propLenTargets = []int{126, 127, 128, 129, 16382, 16383, 16384, 16385}
